@@ -111,7 +111,10 @@ def step(G, spec, o, combo, owner_of_effect):
 
 
 def check(case, ctx):
-    spec = specgen.normalise(case["spec"], ctx.flags | {"no-allopts"}, ctx)
+    # effects are total here (see ASSUMPTIONS): an effect whose option is missing fails with effects on and cannot fail
+    # with effects off, which is a difference in success the property does not speak about
+    spec = specgen.normalise(case["spec"], {"no-effect-option-params"})
+    spec = specgen.normalise(spec, ctx.flags | {"no-allopts"}, ctx)
     ref = Ref(spec)
     G = build(spec)
     if "no-coalesce-value-failure" in ctx.flags:
